@@ -2,6 +2,7 @@ package verifrt
 
 import (
 	"fmt"
+	"syscall"
 	"testing"
 	"time"
 )
@@ -27,7 +28,10 @@ type Explorer struct {
 	Bound    int
 	NoCache  bool
 	Deadline time.Time
-	MaxExecs int64
+	// CPUDeadline, if non-zero, is compared with the process CPU time (user+system): a
+	// budget that does not shrink when the machine is loaded.
+	CPUDeadline time.Duration
+	MaxExecs    int64
 
 	// statistics
 	Execs       int64
@@ -81,6 +85,10 @@ func (x *Explorer) stop() bool {
 		return true
 	}
 	if !x.Deadline.IsZero() && x.Execs%16 == 0 && time.Now().After(x.Deadline) {
+		x.Capped = true
+		return true
+	}
+	if x.CPUDeadline > 0 && x.Execs%16 == 0 && ProcessCPU() > x.CPUDeadline {
 		x.Capped = true
 		return true
 	}
@@ -173,4 +181,13 @@ func choicesOf(r *Result) []int {
 func Replay(t *testing.T, cfg Config, body func(), choices []int) *Result {
 	cfg.Trace = true
 	return RunOnce(t, &prefixStrategy{choices}, cfg, body)
+}
+
+// ProcessCPU returns the CPU time (user+system) consumed by this process so far.
+func ProcessCPU() time.Duration {
+	var ru syscall.Rusage
+	if syscall.Getrusage(syscall.RUSAGE_SELF, &ru) != nil {
+		return 0
+	}
+	return time.Duration(ru.Utime.Nano() + ru.Stime.Nano())
 }
